@@ -71,6 +71,7 @@ type verifPoolScript struct {
 	peerReqs     []pool.PeerRequest
 	connects     int
 	failUpdateAt int // fail the k-th update (1-based); 0 = never
+	gate         chan struct{} // when set, an update waits here for the pool's answer
 }
 
 func (p *verifPoolScript) Host(ctx context.Context, req pool.HostRequest) (*pool.HostResponse, error) {
@@ -88,6 +89,9 @@ func (p *verifPoolScript) Connect(ctx context.Context, req pool.ConnectRequest) 
 }
 func (p *verifPoolScript) Update(ctx context.Context, req pool.UpdateRequest) (*pool.UpdateResponse, error) {
 	p.updates++
+	if p.gate != nil {
+		<-p.gate
+	}
 	if p.updateErr != nil || (p.failUpdateAt > 0 && p.updates == p.failUpdateAt) {
 		if p.updateErr == nil {
 			return nil, errors.New("pool update failed")
@@ -130,6 +134,7 @@ func verifURIs() []verifURI {
 		{"enode://" + b + "@127.0.0.1:30303", b, ""},
 		{"enode://" + b + "@[::]:30303", b, ""},
 		{"enode://" + b + "@[2001:db8::1]:30303", b, "2001:db8::1"},
+		{"enode://" + a + "@192.0.2.1", a, "192.0.2.1"}, // an address without a port (ports are not compared)
 	}
 }
 
